@@ -62,10 +62,20 @@ func addUnrelatedNyctData(r *core.Rand, m *gtfsrt.FeedMessage) int {
 			n++
 		}
 		if a := e.Alert; a != nil && r.Chance(1, 3) {
-			proto.SetExtension(a, gtfsrt.E_MercuryAlert, &gtfsrt.MercuryAlert{CreatedAt: rgen.U64(1600000000), UpdatedAt: rgen.U64(1600000100), AlertType: rgen.S("Delays")})
+			ma := &gtfsrt.MercuryAlert{CreatedAt: rgen.U64(core.Pick(r, []uint64{1600000000, 1600000000, 1600000007})), UpdatedAt: rgen.U64(core.Pick(r, []uint64{1600000100, 1600000100, 1600000200})), AlertType: rgen.S(core.Pick(r, []string{"Delays", "Delays", "Planned - Part Suspended"}))}
+			if r.Bool() {
+				ma.HumanReadableActivePeriod = &gtfsrt.TranslatedString{Translation: []*gtfsrt.TranslatedString_Translation{{Text: rgen.S(core.Pick(r, []string{"Sundays in May", "Weekends", "Until further notice"})), Language: rgen.S("en")}}}
+			}
+			if r.Chance(1, 3) {
+				ma.DisplayBeforeActive = rgen.U64(uint64(core.Pick(r, []int{0, 3600, 7200})))
+			}
+			proto.SetExtension(a, gtfsrt.E_MercuryAlert, ma)
 			for _, sel := range a.InformedEntity {
 				if r.Bool() {
-					proto.SetExtension(sel, gtfsrt.E_MercuryEntitySelector, &gtfsrt.MercuryEntitySelector{SortOrder: rgen.S("GTFS-ID:20")})
+					// known priorities, the timetabled no-service ones, and numbers that are in no table (the same few, so that
+					// different alerts, feeds and concurrent calls meet the same unknown priority)
+					so := core.Pick(r, []string{"GTFS-ID:20", "GTFS-ID:20", "MTASBWY:A:16", "MTASBWY:C:3", "MTASBWY:G:500", "MTASBWY:G:500", "MTASBWY:L:41", "MTASBWY:L:0", "MTASBWY:L:-1", "MTASBWY:7:999999"})
+					proto.SetExtension(sel, gtfsrt.E_MercuryEntitySelector, &gtfsrt.MercuryEntitySelector{SortOrder: rgen.S(so)})
 				}
 			}
 			n++
